@@ -202,6 +202,8 @@ Example app_premises_example :
   names_okb (ac_names px_good) = true /\
   hist_ok (map mk_achain (ac_names px_good)) (app_case_ops px_good).
 Proof.
-  repeat split; try (vm_compute; reflexivity).
+  split; [vm_compute; reflexivity|]. split; [vm_compute; reflexivity|].
+  split; [vm_compute; reflexivity|]. split; [vm_compute; reflexivity|].
+  split; [vm_compute; reflexivity|].
   apply hist_okb_sound. vm_compute. reflexivity.
 Qed.
